@@ -207,8 +207,13 @@ def gqrs_cross_sections():
 def cross_sections_follow_later_changes_of_the_particle():
     """history: cross sections and lengths are read, then the particle's energy (and the interaction's kind) is changed,
     then they are read again - the same values as an interaction freshly set up in the new state"""
-    E1, E2 = real("E1"), real("E2")
-    assume(And(E1 > 0, E2 > 0))
+    if NATIVE:
+        # natively the energies are drawn where the parameterisations are meant to be used (at a few GeV the CTW cross
+        # section underflows to 0.0 and the lengths are inf - floating point, outside A1)
+        E1, E2 = 10 ** real("log10_E1", 3, 12), 10 ** real("log10_E2", 3, 12)
+    else:
+        E1, E2 = real("E1"), real("E2")
+        assume(And(E1 > 0, E2 > 0))
     IT = resolve("pyrex.particle.Interaction.Type")
     for cls, tag in ((GQRS, "GQRS"), (CTW, "CTW")):
         for kn in ("electron_neutrino", "muon_antineutrino"):
